@@ -1161,6 +1161,8 @@ func (s *Sim) fillCode(a *Action, bs *BState, f map[string]string, kind string) 
 				}
 			}
 		}
+	case "blank": // whitespace only
+		a.Secret = []string{" ", "  ", "\t", " \n"}[s.R.Intn(4)]
 	case "emptysecret": // the current code of the EMPTY secret (anybody can compute it)
 		a.Secret = TOTPAt("", 0)
 	case "stale": // a far-away step of the right secret
